@@ -153,6 +153,11 @@ impl Ldap {
         v.sort();
         (m.0, v)
     }
+    /// The shared id table itself; holding it keeps no channel to the driver open.
+    #[allow(clippy::type_complexity)]
+    pub fn verif_id_table_handle(&self) -> Arc<Mutex<(RequestId, HashSet<RequestId>)>> {
+        self.msgmap.clone()
+    }
     pub fn verif_set_id_table(&self, last: i32, in_use: &[i32]) {
         let mut m = self.msgmap.lock().unwrap();
         m.0 = last;
